@@ -10,12 +10,16 @@ g) into a `Store` of the Lean model; `sym.restore` predicts the outcome class (o
 possible error kinds); compared with the real outcome, and on success the bytes assembled from the model's parts are compared
 with the restored files.  With the tagged transparent adapters the same is done on parsed terms (`sym.verify_chunk`), which
 checks WHICH key and WHICH expected digest the real verification uses.
+Sessions (`impl/c04_sessions.py`): the same oracle, tie and tagged tie for ONE long-lived `Repository` object that issues a plan
+of commands (restore / list / delete, snapshots taken through it) while objects are damaged, healed and damaged again between its
+commands — the client's state is part of what the property quantifies over (`symsess.run`, `session_*` theorems).
 """
 import json
 import multiprocessing as mp
 import os
 
 from ..common import rng_for
+from ..impl import c04_sessions as S
 from ..impl import runner as R
 from ..impl import symhist as H
 from ..impl import tagged as T
@@ -356,20 +360,30 @@ def w_tagged(arg):
 def run(out, drv, info):
     quick = out.tier == 'quick'
     n_repo, n_tag = (120, 80) if quick else (400, 300)
+    n_sess, n_tsess = (200, 60) if quick else (1500, 300)
     out.rule = ('case = repository (encrypted?, cipher × key size, hash, (min,max), 1–2 snapshots of 1–3 files incl. empty files and shared blocks) × corruption of the objects '
                 'a restore-by-name of the target snapshot needs or may meet: flip bit (nonce / body / tag / JSON / base64 regions), truncate (0, 1, 11, 12, 27, 28, half, '
                 'len-1, len), extend (1 / 16 bytes), delete, swap (chunk↔chunk, chunk↔snapshot, snapshot↔snapshot), replay under another name (existing location, made-up '
                 'snapshot alias), and random pairs; thorough: every bit offset of every needed object for 10 repositories.  non-trivial = a damaged object is needed by '
-                'the restore; distinct = hash of (configuration, operators, outcome)')
+                'the restore; distinct = hash of (configuration, operators, outcome).  '
+                'Sessions: ONE long-lived Repository object (with / without a cache directory; 2–3 snapshots sharing blocks, each taken through that object or through a fresh '
+                'client; encrypted and unencrypted in equal parts) runs a plan of 2–5 (thorough: up to 10) steps (damage, command): damage = any operator combination above applied '
+                'to the honest objects | keep the previous damage | none (healed); command = restore by name / list files / list snapshots / delete of another snapshot; every plan '
+                'has warm-up on the intact repository → damage of an object the warm-up used → restore.  non-trivial = the damaged object is needed by the command; `stateful` = '
+                'the object had handled the damaged object in an earlier command')
     out.assumptions = ['ideal hash and AEAD in the model: a corrupted / truncated / extended object is a term different from every honestly produced one (no collision, no forgery)',
                        'restore selected by snapshot name; a removed or unreachable snapshot object makes restore write nothing (class `nothing`), which the property allows',
                        'the local snapshot cache is not a repository object (C18); the memory backend does not retry; back-off sleeps are not involved',
-                       'error kinds are compared after mapping cryptography\'s ValueError for ciphertexts shorter than a nonce to `decryption`']
+                       'error kinds are compared after mapping cryptography\'s ValueError for ciphertexts shorter than a nonce to `decryption`',
+                       'sessions: the adversary acts between commands, not during one; one object = one event loop, commands one after the other (no two commands of one '
+                       'object at the same time)']
     ctx = mp.get_context('fork')
     with ctx.Pool(min(16, os.cpu_count() or 4)) as pool:
         a = pool.map_async(w_repo, [(out.seed, i, out.tier) for i in range(n_repo)], chunksize=1)
         b = pool.map_async(w_tagged, [(out.seed, i, out.tier) for i in range(n_tag)], chunksize=2)
-        repos, tags = a.get(), b.get()
+        c = pool.map_async(S.w_session, [(out.seed, i, out.tier) for i in range(n_sess)], chunksize=2)
+        d = pool.map_async(S.w_tagged_session, [(out.seed, i, out.tier) for i in range(n_tsess)], chunksize=2)
+        repos, tags, sessions, tsessions = a.get(), b.get(), c.get(), d.get()
     for rp in repos:
         if rp.get('crashed'):
             out.case({'crashed': rp['idx']}, False)
@@ -420,6 +434,80 @@ def run(out, drv, info):
             if (ch['real'] == 'ok') != (ch['i'] == ch['j']):
                 out.violation('c04:tagged:substitution-accepted' if ch['real'] == 'ok' else 'c04:tagged:honest-rejected',
                               f'chunk object {ch["j"]} at the location of chunk {ch["i"]}: restore → {ch["real"]}', {'kind': 'tagged', 'seed': out.seed, 'idx': tg['idx'], 'tier': out.tier})
+    judge_sessions(out, drv, sessions, tsessions)
+
+
+def judge_sessions(out, drv, sessions, tsessions):
+    """parent side of `impl/c04_sessions.py`: violations, the tie with `symsess.run`, counters"""
+    dominates = None
+    if drv is not None:
+        dominates = drv.ask({'op': 'symsess.flags'}).get('dominates')
+    for sp in sessions:
+        if sp.get('crashed'):
+            out.case({'crashed-session': sp['idx']}, False)
+            out.disagreement(f'session #{sp["idx"]} could not be driven / interpreted: {sp["what"]}', {'kind': 'crash', 'idx': sp['idx'], 'trace': sp['trace']})
+            continue
+        base = {'kind': 'session', 'seed': out.seed, 'idx': sp['idx'], 'tier': out.tier}
+        for sig, what, extra in sp['violations']:
+            out.violation(sig, what, dict(base, **extra, cfg=sp['cfg']))
+        m = drv.ask(sp['request']) if drv is not None else None
+        replies = (m or {}).get('steps') or [None] * len(sp['steps'])
+        if m is not None and 'steps' not in m:
+            out.disagreement(f'session #{sp["idx"]}: driver error: {m.get("error")}', dict(base))
+        out.count('session:' + ('enc' if sp['cfg']['encrypted'] else 'plain') + (':client-cache' if sp['cfg']['client_cache'] else ''))
+        if any(sp['cfg']['snapshots_through_long_lived_object']):
+            out.count('session:snapshot-through-long-lived-object')
+        for st, rep in zip(sp['steps'], replies):
+            summary = {'session': sp['idx'], 'cfg': sp['cfg'], 'step': st['step'], 'cmd': st['cmd'], 'earlier': st['earlier'],
+                       'ops': [[o[0]] + [str(x)[:12] for x in o[1:]] for o in st['ops']], 'outcome': st['outcome'].get('error', st['outcome']['class'])}
+            out.case(summary, st['nontrivial'])
+            out.count('session-step:' + st['cmd'] + (':first' if not st['earlier'] else ':later') + (':damaged' if st['ops'] else ':intact'))
+            if st['stateful']:
+                out.count('session-step:damaged-object-handled-before:' + ('+'.join(st['kinds'])))
+                out.count('session-step:damaged-object-handled-before:→' + st['outcome'].get('error', st['outcome']['class']))
+            if st['kept']:
+                out.count('session-step:same-damage-again')
+            if rep is None:
+                continue
+            if st['cmd'] == 'restore':
+                bad, pred = compare(st, rep, sp['contents'], sp['paths'])
+            else:
+                bad, pred = S.compare_list(st, rep)
+            out.count('session-outcome:' + (pred or 'unknown'))
+            if bad:
+                out.disagreement(f'session #{sp["idx"]} step {st["step"]} ({st["cmd"]} after {st["earlier"]}, damage {st["ops"]}): ' + '; '.join(bad),
+                                 dict(base, step=st['step'], ops=st['ops']))
+            else:
+                out.traces_validated += 1
+    for tg in tsessions:
+        if tg.get('crashed'):
+            out.case({'crashed-tagged-session': tg['idx']}, False)
+            out.disagreement(f'tagged session #{tg["idx"]} could not be driven / interpreted: {tg["what"]}', {'kind': 'crash', 'idx': tg['idx'], 'trace': tg['trace']})
+            continue
+        base = {'kind': 'tagged-session', 'seed': out.seed, 'idx': tg['idx'], 'tier': out.tier,
+                'plan': [{'step': x['step'], 'substituted': x['sub'], 'outcome': x['real']} for x in tg['steps']]}
+        for st in tg['steps']:
+            out.case({'tagged-session': tg['idx'], 'step': st['step'], 'sub': st['sub'], 'enc': st['encrypted']}, st['sub'] is not None and st['step'] > 0)
+            out.count('tagged-session:' + ('first' if st['step'] == 0 else 'later') + ':' + ('honest' if st['sub'] is None else 'substituted') + ':' + st['real'])
+            bad = []
+            want_ok = st['sub'] is None
+            if (st['real'] == 'ok') != want_ok:
+                out.violation('c04:tagged:long-lived:substitution-accepted' if st['real'] == 'ok' else 'c04:tagged:long-lived:honest-rejected',
+                              f'step {st["step"]} of a session of one Repository object, chunk object {st["sub"]} substituted: restore → {st["real"]}', dict(base, step=st['step']))
+            if not st['content_ok']:
+                out.violation('c04:tagged:long-lived:content-differs', f'step {st["step"]} of a session of one Repository object: restore returned normally with other content',
+                              dict(base, step=st['step']))
+            if dominates is None:
+                continue
+            # the model with the generated flag: when the comparison dominates, EVERY command re-hashes every chunk it writes
+            if dominates and st['real'] == 'ok' and not st['rehashed_all']:
+                bad.append(f'step {st["step"]}: the command returned normally without re-hashing every chunk it wrote (the model re-verifies in every command)')
+            if st['encrypted'] and st['real'] == 'ok' and st['decrypt_calls'] < st['chunks']:
+                bad.append(f'step {st["step"]}: {st["decrypt_calls"]} decryptions for {st["chunks"]} chunks')
+            if bad:
+                out.disagreement(f'tagged session #{tg["idx"]}: ' + '; '.join(bad), dict(base, step=st['step']))
+            else:
+                out.traces_validated += 1
 
 
 def _in_child(fn, arg):
@@ -450,5 +538,29 @@ def replay(path, drv):
         for ch in res['checks']:
             print(ch['i'], ch['j'], ch['real'], ch['key_used'])
         return 0
+    if rp.get('kind') == 'session':
+        res = _in_child(S.w_session, (rp['seed'], rp['idx'], rp.get('tier', 'quick')))
+        if res.get('crashed'):
+            print('crashed', res['what'])
+            return 1
+        print('cfg', res['cfg'])
+        for st in res['steps']:
+            print(' step', st['step'], st['cmd'], 'snapshot', st['target'], 'damage', st['ops'], '(kept)' if st['kept'] else '', '->', st['outcome'].get('error', st['outcome']['class']))
+        for v in res['violations']:
+            print('violation', v[0], v[1])
+        bad = 0
+        if drv is not None:
+            m = drv.ask(res['request'])
+            for st, rep in zip(res['steps'], m.get('steps', [])):
+                b, _ = compare(st, rep, res['contents'], res['paths']) if st['cmd'] == 'restore' else S.compare_list(st, rep)
+                if b:
+                    bad += 1
+                    print('disagreement', st['step'], b)
+        return 1 if (res['violations'] or bad) else 0
+    if rp.get('kind') == 'tagged-session':
+        res = _in_child(S.w_tagged_session, (rp['seed'], rp['idx'], rp.get('tier', 'quick')))
+        for st in res.get('steps', []):
+            print(st)
+        return 1 if any((st['real'] == 'ok') != (st['sub'] is None) or not st['content_ok'] or (st['real'] == 'ok' and not st['rehashed_all']) for st in res.get('steps', [])) else 0
     print('replay kind not supported')
     return 2
